@@ -2,6 +2,7 @@
 // Oracles: 128-bit arithmetic, binary gcd, bit loop, explicit byte layout.
 #include "../drv/enum.h"
 #include "../drv/vp.h"
+#include "vp_literals.h" // generated per unit: integer literals of the library sources
 extern "C" {
 #include "a/a.h"
 #include "a/math.h"
@@ -50,7 +51,13 @@ static uint64_t ref_rev(uint64_t x, int w)
 static uint64_t gen_word(Tape &t, int w)
 {
     uint64_t mask = w == 64 ? ~uint64_t(0) : ((uint64_t(1) << w) - 1);
-    switch (t.u8() % 8)
+    uint8_t cb = t.u8();
+    if (cb >= 248 && vp_nliterals)
+    {
+        // an integer literal of the library's own source (constants it compares against), +- a little
+        return (vp_literals[t.u16() % vp_nliterals] + uint64_t(cb - 251)) & mask;
+    }
+    switch (cb % 8)
     {
     case 0: return t.u8() & mask;
     case 1: return t.u64() & mask;
